@@ -18,6 +18,11 @@
     non-OPT record of the reading of any of the three record sections, a successful delete leaves a state satisfying [dinv]
     whose three record lists are the old ones with exactly that record removed (the others in their order, with their names,
     types, classes, TTLs and data, placed back to back), only that section's count lowered, the flag word as it was.
+    The owner-name setter on a decompressed object (C09_set_name_on_decompressed): from any such state, cursor on a non-OPT
+    record of a record section, any byte string given as the name: a successful set_raw_name means the string was accepted by
+    the name checker up to [n] bytes, those bytes are the wire form of labels [ls], and the three record lists afterwards are
+    the old ones with exactly that record's owner labels replaced by [ls] (growing, shrinking or equal length), counts and
+    flag word as they were, [dinv] kept.
     For the other operations the refinement to the abstract message operations is decided each
     run by the correspondence and the abstract-effect oracle (gen/hist.py).  Also proved: the byte
     level effect of insertion (the record is spliced at the insertion offset of the packet with one
@@ -31,7 +36,7 @@
     second record in the implementation (known finding data-pointer). *)
 From DV Require Import Model.Base Model.NameCheck Model.Parser Model.Header Model.Readers Model.Uncompress
   Model.Mutate Spec.NameSpec Spec.PacketSpec Spec.RecordSpec Proofs.Hoare Proofs.HeaderBits Proofs.InsertLemmas
-  Spec.PlainSpec Proofs.WalkValues Proofs.SetTtl Proofs.WalkSkip Proofs.PlainWf Proofs.InsertSpec Proofs.SetTtlInv Proofs.DeleteInv.
+  Spec.PlainSpec Proofs.WalkValues Proofs.SetTtl Proofs.WalkSkip Proofs.PlainWf Proofs.InsertSpec Proofs.SetTtlInv Proofs.DeleteInv Proofs.SetNameInv.
 From Coq Require Import Lia.
 
 Theorem C09_insert_appends : forall sec rr v it s',
@@ -232,3 +237,26 @@ Theorem C09_delete_on_decompressed : forall v it s' qls qt lA lN lR r x,
     (forall w0, u16_at (pp_packet v) 2 w0 -> u16_at (pp_packet (fst s')) 2 w0).
 Proof. exact delete_keeps_dinv. Qed.
 Print Assumptions C09_delete_on_decompressed.
+
+Theorem C09_set_name_on_decompressed : forall nm v it s' qls qt lA lN lR r x,
+  dinv v -> bytes_ok nm -> reading (pp_packet v) qls qt lA lN lR -> In (r, x) (lA ++ lN ++ lR) -> is_opt r = false ->
+  it_offset it = Some (rv_off r) -> it_name_end it = rv_name_end r ->
+  m_set_raw_name nm (v, it) = (s', Ok tt) ->
+  dinv (fst s') /\
+  exists n ls A Nn R A' Nn' R' X1 r0 X2,
+    let o1 := 12 + length (wire_of_labels qls) + 4 in
+    check_compressed_name nm 0 = Ok n /\ firstn n nm = wire_of_labels ls /\ name_ok ls /\
+    lA = place o1 A /\ lN = place (o1 + length (cat A)) Nn /\ lR = place (o1 + length (cat A) + length (cat Nn)) R /\
+    reading (pp_packet (fst s')) qls qt (place o1 A') (place (o1 + length (cat A')) Nn') (place (o1 + length (cat A') + length (cat Nn')) R') /\
+    A ++ Nn ++ R = X1 ++ (r0, x) :: X2 /\ A' ++ Nn' ++ R' = X1 ++ with_labels (r0, x) ls :: X2 /\ r = rv_at r0 x (o1 + length (cat X1)) /\
+    length A' = length A /\ length Nn' = length Nn /\ length R' = length R /\
+    (forall w0, u16_at (pp_packet v) 2 w0 -> u16_at (pp_packet (fst s')) 2 w0).
+Proof. exact set_raw_name_keeps_dinv. Qed.
+Print Assumptions C09_set_name_on_decompressed.
+
+Example C09_set_name_vocabulary :
+  (forall rx ls, with_labels rx ls = (rv_with_labels (fst rx) ls, snd rx)) /\
+  (forall r ls, rv_labels (rv_with_labels r ls) = ls /\ rv_type (rv_with_labels r ls) = rv_type r /\ rv_class (rv_with_labels r ls) = rv_class r /\
+                rv_ttl (rv_with_labels r ls) = rv_ttl r) /\
+  (forall ls, name_ok ls <-> Forall ReadersLabels.label_ok ls /\ length (wire_of_labels ls) <= 255 /\ bytes_ok (wire_of_labels ls)).
+Proof. split; [reflexivity|]. split; [intros; repeat split; reflexivity|]. intros ls. unfold name_ok. tauto. Qed.
